@@ -148,6 +148,12 @@ def build_corpus(tier, rng):
             it = Item("E", vs, repr=rp)
             it.repr_form = form
             add(it, "repr-forms")
+    # a type parameter that no payload needs to be Default (PhantomData<T>), instantiated with a type that is NOT Default: from_repr exists for it
+    for rp in (None, "u8", "i16"):
+        it = Item("E", [mk_variant("A", "unit", False, 2 if rp else None), Variant("Mark", "tuple", [Field("std::marker::PhantomData<G0>")]),
+                        Variant("Off", "named", [Field("std::marker::PhantomData<G0>", "m")], [DISABLED]), mk_variant("D", "unit", False)], repr=rp, tparams=1)
+        it.targ = "NoDef"
+        add(it, "unbounded-parameter")
     # generics (type and const parameters); FromRepr does not support lifetimes
     for rp in ([None, "u8", "i16", "u64"] if not thorough else REPRS):
         for mask in range(8):
@@ -174,7 +180,7 @@ def build_corpus(tier, rng):
 
 
 def render_def(k, it, meta, cfg):
-    src = [render_item(it, ["strum::FromRepr", "Debug", "PartialEq"], bounds="Default" if it.tparams else "")]
+    src = [render_item(it, ["strum::FromRepr", "Debug", "PartialEq"], bounds="Default" if (it.tparams and not getattr(it, "targ", None)) else "")]
     src.append(RR.vobs_fn(it))
     ty = it.repr or "usize"
     E = RR.turbofish(it)
